@@ -283,6 +283,12 @@ def run(ctx: Ctx, driver: Driver):
             for pstate in ({"mdns": ("none",), "ble": ("none", "cached", "uncached"), "aggregate": ("none", "ble-paired", "ip-paired")}[kind]):
                 if pstate != "none" and rng.random() < 0.6:
                     continue
+                if ctx.evaluations % 1000 == 999:
+                    # timers of finished schedules (waiter time-outs that virtual time never reached) pile up in the loop's heap and
+                    # asyncio rebuilds the heap again and again: a fresh loop every 1000 schedules keeps the stream linear
+                    loop.close()
+                    loop = simnet.VLoop()
+                    asyncio.set_event_loop(loop)
                 out, errors = loop.run_until_complete(run_schedule(loop, kind, evs, pstate))
                 ctx.evaluations += 1
                 case = {"stream": "waiters", "controller": kind, "pairing": pstate, "events": [tok(e) for e in evs]}
@@ -309,6 +315,9 @@ def run(ctx: Ctx, driver: Driver):
     ctx.sample(cases[17])
     ctx.sample(cases[-1])
     compare_with_model(ctx, "waiters", cases, outs, lines, driver)
+    loop.close()
+    loop = simnet.VLoop()
+    asyncio.set_event_loop(loop)
     browser_streams(ctx, driver, rng, loop)
     parse_streams(ctx, driver, rng)
     callback_robustness(ctx, rng, loop)
